@@ -330,8 +330,11 @@ def _one(method, full_path, kw, caller):
     return [r.status, nsql, first, changed, leak]
 
 
+VARIANTS = {'valid': None, 'empty-object': b'{}', 'malformed': b'{"not json'}
+
+
 def _run_table(task):
-    kind, table = task
+    kind, table, variants = task
     cl = callers()
     if kind == 'gates':
         _set_policy(None, None)
@@ -350,8 +353,12 @@ def _run_table(task):
             raise RuntimeError('no fixture request for route %r %r: extend harness/props/c16.py:requests' % key)
         cpath, q, body = reqs[key]
         full = cpath + ('?' + q if q else '')
-        for ci, c in enumerate(cl):
-            res.append([ki, ci] + _one(key[1], full, {'body': body}, c))
+        for vi, v in enumerate(variants):
+            if v != 'valid' and body is None:
+                continue                    # no body to vary
+            kw = {'body': body} if v == 'valid' else {'raw_body': VARIANTS[v]}
+            for ci, c in enumerate(cl):
+                res.append([(ki, vi), ci] + _one(key[1], full, kw, c))
     return kind, table, res, {'%s %s' % (k[1], k[0]): list(reqs[k]) for k in keys}
 
 
@@ -472,7 +479,8 @@ def _run(chk, scratch):
     suspected = set(SUSPECTED_DEFECTS)
 
     # ---- the real application, in parallel
-    tasks = [('gates', None)] + [('table', t) for t in tbls]
+    variants = ['valid'] if chk.tier == 'quick' else ['valid', 'empty-object', 'malformed']
+    tasks = [('gates', None, variants)] + [('table', t, variants) for t in tbls]
     nproc = min(16, os.cpu_count() or 4, len(tasks))
     ctx = multiprocessing.get_context('fork')
     with ctx.Pool(nproc, initializer=_worker_init, initargs=(scratch,)) as pool:
@@ -505,25 +513,30 @@ def _run(chk, scratch):
         by_req = {}
         for rec in res:
             by_req.setdefault(rec[0], {})[rec[1]] = rec[2]
-        for ki, ci, status, nsql, first_sql, changed, leak in res:
+        for (ki, vi), ci, status, nsql, first_sql, changed, leak in res:
             key = keys[ki]
+            variant = variants[vi]
             c = cl[ci]
             path, method = key
             label = '%s %s' % (method, path or "''")
             cpath, q, body = used['%s %s' % (method, path)]
             full = cpath + ('?' + q if q else '')
             exp = text_oracle(table, key, c, rules)
-            chk.evaluation([tname, label, c[0]], nontrivial=False)
-            chk._distinct.add((label, c[0], 'default' if rule is None else ('own-rule' if key[::-1] in rules.get(rule, ()) else 'other-rule') + val, status))
+            chk.evaluation([tname, label, variant, c[0]], nontrivial=False)
+            chk._distinct.add((label, variant, c[0], 'default' if rule is None else ('own-rule' if key[::-1] in rules.get(rule, ()) else 'other-rule') + val, status))
             chk.tally('by_status', str(status))
             chk.tally('by_caller', c[0])
             obs = observed_class(status)
 
             def rp(expected, extra=None):
-                return mk_replay(table, method, full, body, c, expected,
+                extra = dict(extra or {})
+                if variant != 'valid':
+                    extra['call_kwargs'] = {'raw_body': VARIANTS[variant].decode()}
+                    extra['body_variant'] = variant
+                return mk_replay(table, method, full, body if variant == 'valid' else None, c, expected,
                                  {'status': status, 'sql_statements': nsql, 'first_sql': first_sql,
                                   'dump_changed': changed, 'stored_data_in_answer': leak}, extra)
-            case = '%s:%s' % (label, c[0])
+            case = '%s:%s' % (label, c[0]) + ('' if variant == 'valid' else ':' + variant)
             # (1) authentication
             if c[1] is None:
                 want = 200 if cpath == '/' else 401
@@ -543,7 +556,7 @@ def _run(chk, scratch):
                     vio('monitor', 'refusal-leaks', 'refused-but-leaks:%s' % label, 'stored data %s in a %s answer' % (leak, status), rp('no stored data'))
             # (3) authorisation against the text of the property
             if c[1] is not None and exp is False:
-                everybody = set(by_req[ki][j] for j in by_req[ki] if cl[j][1] is not None)
+                everybody = set(by_req[(ki, vi)][j] for j in by_req[(ki, vi)] if cl[j][1] is not None)
                 uniform = status in (404, 405, 406, 415) and everybody == {status}
                 sig = None
                 if 200 <= status < 300:
@@ -565,7 +578,7 @@ def _run(chk, scratch):
                 vio('monitor', 'authorised-refused', 'authorised-refused:%s' % case,
                     'caller %s (roles %s, project %s) is admitted to %s under policy %s but got %s' % (c[0], sorted(c[3]), c[4], label, tname, status),
                     rp('not 401/403'))
-            if exp is True and not (200 <= status < 300) and status not in (401, 403):
+            if exp is True and variant == 'valid' and not (200 <= status < 300) and status not in (401, 403):
                 chk.tally('admitted_but_not_2xx', '%s -> %s' % (label, status))
             # (4) correspondence with the Lean model
             if pred is not None:
@@ -596,12 +609,14 @@ def _run(chk, scratch):
                        'no roles / reader / member / admin / service in the own and in another project; admin token of the middleware; '
                        'upper-case role; system- and domain-scoped tokens] x policy files [%d: none, and every registered rule [%d] '
                        'replaced by @ and by !], plus %d gate requests (405/415/406/404-by-version/unknown path) x callers under the '
-                       'default policy.  distinct = (route, method, caller class, {default, own rule @/!, other rule @/!}, status).'
+                       'default policy; thorough tier: every request with a body also with the body {} and with malformed JSON (an unauthorised '
+                       'caller must still get 403, not 400).  distinct = (route, method, caller class, {default, own rule @/!, other rule @/!}, status).'
                        % (len(keys), len(cl), len(tbls), len(rules), len(gates)))
     chk.cov['routes_x_methods'] = len(keys)
     chk.cov['caller_classes'] = len(cl)
     chk.cov['policy_tables'] = len(tbls)
     chk.cov['gate_requests'] = len(gates)
+    chk.cov['body_variants'] = variants
     chk.cov['cells_compared_with_lean'] = n_corr
     chk.cov['traces_validated_against_impl'] = n_corr
     chk.cov['suspected_defects'] = sorted(suspected)
